@@ -119,7 +119,10 @@ Fixpoint enc (O : gopts) (v : gv) {struct v} : item :=
   | GF32 b => IF32 b                                     (* kFloat32 *)
   | GF64 b => IF64 b                                     (* kFloat64 *)
   | GStr s => IStr s                                     (* kString: EncodeString *)
-  | GBytes None => if nil_to_empty O then IBytes [] else INil   (* EncodeBytes(nil) -> writeNilBytes *)
+  | GBytes None => if nil_to_empty O then IBytes [] else INil   (* EncodeBytes(nil) -> writeNilBytes; a nil []byte reached
+                                                                  by reflection only (Encode(&b), named byte-slice types) is
+                                                                  written as an empty ARRAY under NilCollectionToZeroLength
+                                                                  (encodeValue :1193-1201); both read back as empty []byte *)
   | GBytes (Some b) => IBytes b                          (* EncodeBytes -> EncodeStringBytesRaw *)
   | GBArr b => IBytes b                                  (* kArray :328 / EncSliceUint8V: EncodeStringBytesRaw *)
   | GTime s n => ITime s n                               (* kTime / encodeBuiltin time.Time: EncodeTime *)
